@@ -476,7 +476,7 @@ fn corruption_corpus(tier: &str) -> Vec<String> {
   let shapes: Vec<(usize, usize, usize, usize)> = if tier == "thorough" {
     vec![(1, 1, 0, 1), (2, 1, 0, 2), (2, 2, 1, 2), (3, 3, 2, 3), (1, 2, 2, 2), (2, 3, 0, 1)]
   } else {
-    vec![(1, 1, 0, 1), (2, 2, 1, 2)]
+    vec![(1, 1, 0, 1), (2, 2, 1, 2), (1, 1, 1, 2)]
   };
   for (ni, no, na, nr) in shapes {
     for rows in [true, false] {
@@ -491,7 +491,10 @@ fn corruption_corpus(tier: &str) -> Vec<String> {
   out
 }
 
-const REPLACEMENTS: [char; 16] = [' ', '│', '─', '║', '═', '┼', '╬', '╫', '╪', '┌', '┘', '├', '╥', '╞', 'X', '1'];
+/// every box-drawing character the recognizer's source mentions, and a blank, a letter, a digit and a line break
+const REPLACEMENTS: [char; 29] = [
+  ' ', '│', '─', '║', '═', '┼', '╬', '╫', '╪', '┌', '┘', '├', '╥', '╞', 'X', '1', '┐', '└', '┤', '┬', '┴', '╟', '╡', '╢', '╤', '╧', '╨', '╳', '\n',
+];
 
 struct Corruptions {
   drawings: Vec<Vec<char>>,
